@@ -7,7 +7,8 @@ equation per branch of `validate_and_store_record` / `store_replicated_in_record
 functions they call — instantiated with data (`validate`), composed with an abstract store
 (`deliverSeq`), and a small-step semantics (`World`) in which every read of the local store
 (`RecordStoreHasKey`, `GetLocalRecord`) is an explicit step, so that several validations of one key
-can be interleaved.  The routing table, the list/order of payment checks and the comparators come
+can be interleaved, and in which the store may drop any key between any two steps (`Act.remove`:
+eviction, clean-up, removal of a failed write).  `validateSized` puts the node's own size test in front.  The routing table, the list/order of payment checks and the comparators come
 from `SafeNet.Gen.Validate`, regenerated from the Rust source.
 
 Identities are small naturals; key number = `3*id + space` (0 chunk, 1 owner, 2 register).
@@ -179,6 +180,8 @@ def skel (b : Branch) (o : Obs) : Out :=
     else if vkeRejects o then rej .keyMismatch
     else if !o.h1 then rej .unpaid [.H]
     else if padChecksKey && !o.km then rej .keyMismatch [.H]
+    -- without payment only as an update of the copy held: the local read must find it
+    else if padUpdateNeedsLocal && !o.lSome then rej .unpaid [.H, .G]
     else
       let sp := storePad false o
       ⟨sp.res, [.H] ++ sp.toks, sp.repl⟩
@@ -192,6 +195,8 @@ def skel (b : Branch) (o : Obs) : Out :=
     else
       let pt := payToks o.pay
       if o.pay ≠ .ok && !o.h1 then rej (payErr o.pay) ([.H] ++ pt)
+      -- a failed payment is tolerated only for an update of the set held: the local read must find it
+      else if txFailedPayNeedsLocal && o.pay ≠ .ok && o.cA && o.cB && !o.lSome then rej .unpaid ([.H] ++ pt ++ [.G])
       else
         let st := storeTx o
         if st.res = .ok then ⟨.ok, [.H] ++ pt ++ st.toks ++ [.F .i], st.repl ++ [.Rk .i]⟩
@@ -202,6 +207,8 @@ def skel (b : Branch) (o : Obs) : Out :=
     if !o.parse then rej .parse
     else if regUpdateChecksKey && !o.km then rej .keyMismatch
     else if !o.h1 then rej .unpaid [.H]
+    -- without payment only as an update of the copy held: the store function's own existence test must find it
+    else if regUpdateNeedsLocal && !o.h2 then rej .unpaid [.H, .H]
     else
       let sr := storeReg true o
       if sr.res = .ok then ⟨.ok, [.H] ++ sr.toks ++ [.F .i], sr.repl⟩
@@ -212,6 +219,7 @@ def skel (b : Branch) (o : Obs) : Out :=
     else
       let pt := payToks o.pay
       if o.pay ≠ .ok && !o.h1 then rej (payErr o.pay) ([.H] ++ pt)
+      else if regFailedPayNeedsLocal && o.pay ≠ .ok && !o.h2 then rej .unpaid ([.H] ++ pt ++ [.H])
       else
         let sr := storeReg true o
         if sr.res = .ok then ⟨.ok, [.H] ++ pt ++ sr.toks ++ [.F .i], sr.repl⟩
@@ -364,6 +372,16 @@ def Store.put (s : Store) (k : Nat) (c : Content) : Store :=
   match s with
   | [] => [(k, c)]
   | (k', c') :: rest => if k' = k then (k, c) :: rest else (k', c') :: Store.put rest k c
+
+/-- the store drops a key (capacity eviction, range clean-up, removal of a failed write) -/
+def Store.remove (s : Store) (k : Nat) : Store := s.filter (fun e => e.1 != k)
+
+/-- 0 chunk, 1 scratchpad, 2 transaction set, 3 register (the numbering of `kindFam`) -/
+def Content.fam : Content → Nat
+  | .chunk => 0
+  | .pad .. => 1
+  | .txs _ => 2
+  | .reg .. => 3
 
 /-- answers a validation has received so far: `RecordStoreHasKey` replies in order, `GetLocalRecord` reply -/
 structure Ans where
@@ -558,6 +576,10 @@ inductive Act
   | begin (id : Nat) (d : Delivery)
   | ans (id : Nat)
   | run (id : Nat)
+  /-- the store drops key `k` — whatever the cause (`prune_records_if_needed` at capacity, `cleanup_irrelevant_records`
+  after a range change, `RemoveFailedLocalRecord`, kad `remove`): the swarm driver handles these between any two
+  commands of a validation, so the scheduler may place this action anywhere -/
+  | remove (k : Nat)
 deriving Repr
 
 structure World where
@@ -592,8 +614,24 @@ def World.act (w : World) : Act → World × Option (Option Res × List Tok)
         (({ w with store := so.store }).setFlight id (if so.done.isSome then none else some so.flight), some (so.done, so.toks))
       else (w, none)
     | none => (w, none)
+  | .remove k => ({ w with store := w.store.remove k }, some (none, []))
 
 def World.run (w : World) (acts : List Act) : World := acts.foldl (fun w a => (w.act a).1) w
+
+/-! ## The node's own size test (first statement of both entry points of put validation) -/
+
+/-- `record.value.len() >= MAX_PACKET_SIZE` (comparator and constant from the source) -/
+def oversize (len : Nat) : Bool :=
+  if nodeSizeRefusesAtLimit then decide (maxPacketSize ≤ len) else decide (maxPacketSize < len)
+
+/-- the record is refused for its size before its header is even parsed -/
+def sizeGate (client : Bool) (len : Nat) : Bool :=
+  (if client then clientPathRefusesOversize else replPathRefusesOversize) && oversize len
+
+/-- `validate_and_store_record` / `store_replicated_in_record` on a record whose value is `len` bytes long:
+`none` = refused as too large (an error, no command at all), otherwise the decision function. -/
+def validateSized (len : Nat) (d : Delivery) (s : Store) : Option (Res × List Tok) :=
+  if sizeGate d.client len then none else some (validate d s)
 
 /-! ## `RecordStore::put` (the libp2p-facing put) -/
 
